@@ -62,9 +62,11 @@ def same(o1, o2):
     return (o1.base == o2.base) and len(o1.code) == len(o2.code) and (o1.code == o2.code)
 
 
-def repeat_programs(body, n, nsym=False):
+def repeat_programs(body, n, nsym=False, late=False):
     head = ".link {B}\nTB: .word 0\n"
     tail = "\n.even\nTA: .word 0\n"
+    if late:
+        head, tail = "TB: .word 0\n", tail + ".link {B}\n"
     one_line = body.replace("\n", "\n ")
     rep = head + (".repeat {N} { " if nsym else f".repeat {n}. {{ ") + one_line + " }" + tail
     unrolled = head + "\n".join([body] * n) + tail
@@ -85,7 +87,7 @@ def h_repeat(params, vals, ctx):
         vals = {**vals, "N": n}
     else:
         n = params["n"]
-    rep, unrolled = repeat_programs(body, n, nsym="N" in vals)
+    rep, unrolled = repeat_programs(body, n, nsym="N" in vals, late=params.get("late", False))
     o1 = assemble([("a.mac", rep)], vals, route=ctx.route)
     o2 = assemble([("a.mac", unrolled)], vals, route=ctx.route)
     ctx.observe_outcome(o1)
@@ -299,6 +301,9 @@ def obligations(tier, seed):
         vars_ = {"B": "int", "N": "int"}
         if "{X}" in body:
             vars_["X"] = "int"
+        if tier == "thorough" or name in ("dot-word", "rel-after", "idx-sum", "dot-div", "align-word", "even-word", "nested", "branch-fwd"):
+            obs.append(Ob(oid=f"repeat-late-link/{name}/n3", harness=P + "h_repeat", params={"body": name, "n": 3, "late": True},
+                          vars={k: v for k, v in vars_.items() if k != "N"}, timeout=400, per_path=90, note=".link at the end: base unknown while the copies are compiled"))
         if tier == "thorough" or name in ("dot-word", "rel-after", "idx-sum", "dot-div", "align-word"):
             obs.append(Ob(oid=f"repeat/{name}/n-symbolic", harness=P + "h_repeat", params={"body": name, "nmax": 4}, vars=vars_, timeout=600, per_path=90))
     for i, files in enumerate(SPLITS):
